@@ -3,6 +3,7 @@ package scen
 import (
 	"context"
 	"fmt"
+	"hash/fnv"
 	"net"
 	"sort"
 	"sync"
@@ -88,22 +89,41 @@ func c20(r *Run) {
 	}
 	attempts := map[string]int{}
 	var amu sync.Mutex
+	// short writes (the datagram leaves truncated, WriteTo reports fewer bytes and no error):
+	// planned by write index so that the decision does not depend on goroutine order
+	// decided from the datagram itself (destination, echoed t, attempt number), never from the
+	// order in which concurrent writers reach the socket
+	shortMod := 0
+	if ch.Chance(1, 3, "short.writes") {
+		shortMod = ch.Range(4, 40, "short.mod")
+	}
+	shortSalt := uint32(r.Rng.Intn(1 << 16))
 	conn.Fault = func(i int, b []byte, to net.Addr) (bool, bool) {
 		d, err := benc.DecodeDict(b)
 		if err != nil {
 			return false, false
 		}
+		short := false
+		if y, _ := d.Str("y"); shortMod > 0 && y != "q" {
+			t, _ := d.Str("t")
+			h := fnv.New32a()
+			h.Write([]byte(to.String() + "|" + t))
+			short = (h.Sum32()^shortSalt)%uint32(shortMod) == 0
+		}
 		a, _ := d.Dict("a")
 		mk, _ := a.Str("target")
 		c := byMarker[mk]
 		if c == nil {
-			return false, false
+			return false, short
 		}
 		amu.Lock()
 		n := attempts[mk]
 		attempts[mk]++
 		amu.Unlock()
-		return n == c.failOn, false
+		if n == c.failOn {
+			return true, false
+		}
+		return false, shortMod > 0 && (uint32(n)+shortSalt+uint32(mk[0]))%uint32(shortMod) == 0
 	}
 	if ch.Chance(1, 3, "bootstrap") {
 		r.After(time.Duration(r.Rng.Int63n(int64(span))), "bootstrap", func() {
@@ -163,6 +183,9 @@ func c20(r *Run) {
 	var refunds []time.Time // failed rated writes: the code hands the token back
 	replyLate := 0
 	r.Tap = func(wr *core.Write) bool {
+		if wr.Short {
+			r.FaultHit("short-write")
+		}
 		if wr.D == nil {
 			return true
 		}
